@@ -96,6 +96,7 @@ func vfCapsShim(caps vfClientCaps) func(line []byte) []byte {
 }
 
 type vfC14Episode struct {
+	ServerTmux bool    `json:"server_in_tmux"` // the server itself runs inside tmux normal mode
 	Tunnel bool        `json:"tunnel"`
 	Kind  string       `json:"kind"` // success, cancel, server-fail, client-fail, ctrl-c
 	Dir   string       `json:"dir"`
@@ -147,9 +148,22 @@ func (r *vfFilterRig) c14Episode(ep vfC14Episode, work string, n int) bool {
 	default:
 		f.SetDefaultDownloadPath(dst)
 	}
-	if ep.Kind == "ctrl-c" {
+	if ep.Kind == "ctrl-c" || ep.Kind == "stop-before-cfg" {
 		version = "1.1.0"
 		ep.Dir = "down"
+	}
+	if ep.Kind == "stop-before-cfg" {
+		// the user stops while the relays are still waiting for the server's CFG: the client's fail line
+		// passes them during the handshake
+		fired := false
+		r.down[0].SetGate(func(ev vfGateEvent) {
+			if ev.Before && ev.Type == "CFG" && !fired {
+				fired = true
+				r.clientIn.WriteAtomic([]byte{0x03})
+				time.Sleep(300 * time.Millisecond)
+			}
+		})
+		defer r.down[0].SetGate(nil)
 	}
 	var uploadRes <-chan error
 	if ep.Dir == "up" {
@@ -165,6 +179,10 @@ func (r *vfFilterRig) c14Episode(ep vfC14Episode, work string, n int) bool {
 		uploadRes = ch
 	}
 	gate := make(chan struct{})
+	tmuxMode, tmuxWidth := tmuxModeType(noTmuxMode), int32(-1)
+	if ep.ServerTmux {
+		tmuxMode, tmuxWidth = tmuxNormalMode, 97
+	}
 	st = newTransfer(r.serverOut, nil, false, nil)
 	port := 0
 	dial := func(p int) net.Conn {
@@ -201,7 +219,7 @@ func (r *vfFilterRig) c14Episode(ep vfC14Episode, work string, n int) bool {
 				os.MkdirAll(filepath.Join(dst, "f.bin"), 0755)
 				args.Overwrite = true
 			}
-			err = recvFiles(st, &trzArgs{baseArgs: args, Path: path}, noTmuxMode, -1)
+			err = recvFiles(st, &trzArgs{baseArgs: args, Path: path}, tmuxMode, tmuxWidth)
 		} else {
 			var files []*sourceFile
 			files, err = checkPathsReadable([]string{filepath.Join(src, "f.bin")}, args.Directory)
@@ -212,7 +230,7 @@ func (r *vfFilterRig) c14Episode(ep vfC14Episode, work string, n int) bool {
 				if ep.Kind == "ctrl-c" {
 					<-gate
 				}
-				err = sendFiles(st, files, &tszArgs{baseArgs: args}, noTmuxMode, -1)
+				err = sendFiles(st, files, &tszArgs{baseArgs: args}, tmuxMode, tmuxWidth)
 			}
 		}
 		if err != nil {
@@ -363,7 +381,7 @@ func TestVF_C14(t *testing.T) {
 	writeToClipboard = func(buf []byte) {}
 	var cases []vfCase
 	n := vfPick(40, 500)
-	kinds := []string{"success", "success", "success", "cancel", "server-fail", "client-fail", "ctrl-c", "success"}
+	kinds := []string{"success", "success", "success", "cancel", "server-fail", "client-fail", "ctrl-c", "success", "stop-before-cfg"}
 	for i := 0; i < n; i++ {
 		i := i
 		cases = append(cases, vfCase{ID: fmt.Sprintf("seq-%d", i), Run: func(c *vfCtx) {
@@ -378,6 +396,7 @@ func TestVF_C14(t *testing.T) {
 				ep.Args = baseArgs{Quiet: r.Intn(2) == 0, Overwrite: r.Intn(2) == 0, Binary: r.Intn(2) == 0, Escape: r.Intn(2) == 0,
 					Directory: r.Intn(2) == 0 && !ep.Caps.NoDir, Bufsize: bufferSize{int64(r.PickInt(1024, 65536, 10<<20))}, Timeout: r.PickInt(10, 20, 30), Compress: compressType(r.Intn(3))}
 				ep.ArgsS = fmt.Sprintf("%+v", ep.Args)
+				ep.ServerTmux = !ep.Args.Binary && r.Intn(3) == 0
 				if ep.Kind == "success" && (i+k)%3 == 0 {
 					ep.Tunnel = true
 					ep.Caps = vfClientCaps{} // the ACT travels inside the tunnel: the shim cannot reach it
@@ -393,6 +412,7 @@ func TestVF_C14(t *testing.T) {
 					po = append(po, []byte(fmt.Sprintf("remote output %d-%d \x1b[0m\r\n", k, q)), r.Bytes(1+r.Intn(300)))
 					pi = append(pi, []byte(fmt.Sprintf("typed %d-%d\r", k, q)), r.Bytes(1+r.Intn(40)))
 				}
+				po = append(po, []byte("$ \n")) // ends with a line feed: the taps' framing parser stays in step
 				if !rig.probe("after-"+ep.Kind, po, pi) {
 					c.Replay(map[string]interface{}{"relays": nrel, "history": hist})
 					return
